@@ -8,6 +8,7 @@ import importlib
 
 import c04_api
 import x04dp
+import x04ds
 import x04pf
 
 
@@ -21,7 +22,12 @@ def run(ctx, replay):
     x04dp.ONLY = "C04"
     if replay and x04dp.run_replay(ctx, replay):
         return
+    if replay and x04ds.run_replay(ctx, replay):
+        return
     c04_api.run_api(ctx)
+    # DNS64 in front of the cache: the synthesised reply is composed from the cached AAAA NODATA and the cached A RRset
+    # of differing ages (Lease64.tla, the DNS64 dimension of the answer half), same driver
+    x04ds.run_tier(ctx)
     # background refresh: claim, queue, worker, completion CAS, Stop (Prefetch.tla), gated on the real cache
     import os
     ctx.overlay_tags.add("x04pf")
